@@ -255,7 +255,9 @@ EXPORT_CFG = dict(protect=[["cfg"], ["usr", "share", "conf"]], mask=[["cfg", "ma
 
 
 def export_path(cls, k):
-    return {"prot": ["cfg", f"k{k}", "a.conf"], "mask": ["cfg", "masked", f"k{k}", "a.conf"],
+    # every other protected path sits in a sibling whose NAME starts with the masked directory's (/cfg/masked.k3/ next
+    # to the mask entry /cfg/masked): entries cover whole path components, a bare string prefix must not unprotect it
+    return {"prot": ["cfg", f"masked.k{k}" if k % 2 else f"k{k}", "a.conf"], "mask": ["cfg", "masked", f"k{k}", "a.conf"],
             "igndir": ["cfg", "ign", f"k{k}", "a.conf"], "ignfile": ["usr", "share", "conf", f"k{k}", "x.conf"],
             "plain": ["opt", f"k{k}", "a.conf"]}[cls]
 
@@ -306,8 +308,10 @@ def random_scenario(r_, offset):
     protect = r_.sample(dirs, r_.randint(1, 3))
     mask = [d for d in r_.sample(dirs, r_.randint(0, 2))]
     ignore = []
-    names = ["a.conf", "b.conf", "c", "d.rc"]
-    fdirs = dirs + [["cfg", "app", "deep", "er"], ["opt"]]
+    # "app.conf" / "x.rc" / "share.conf": siblings whose text starts with the name of a pool directory (/cfg/app,
+    # /opt/x, /usr/share): protect and mask entries cover whole path components, never bare string prefixes
+    names = ["a.conf", "b.conf", "c", "d.rc", "app.conf", "x.rc", "share.conf"]
+    fdirs = dirs + [["cfg", "app", "deep", "er"], ["opt"], ["usr"]]
     npaths = r_.randint(1, 6)
     paths = []
     while len(paths) < npaths:
